@@ -31,7 +31,7 @@ VARIABLES st,      \* r -> "new" | "queued" | "sent" | "resp" | "err" | "done" |
           conn,    \* "none" | "connecting" | "ready"
           connT, rStart, rCount,
           peer,    \* "open" | "closed" | "reset"     (environment)
-          pollm,   \* "ready" | "notready" | "hup" | "err"  (environment: what poll() says)
+          pollm,   \* "ready" | "notready" | "noout" | "hup" | "err"  (environment: what poll() says)
           openm,   \* "ok" | "fail"                   (environment: getaddrinfo/connect outcome)
           clock,
           usedIds,
@@ -100,6 +100,13 @@ Output(S) ==
                    THEN Output(SetErr([S0 EXCEPT !.sendq = Tail(@)], {r}, <<"sndto", 0>>))
                    ELSE Output([S0 EXCEPT !.sendq = Tail(@), !.st[r] = "sent", !.sndT[r] = clock, !.rCount = @ + 1])
 
+(* the connection is established but nothing can be written now (poll reports no POLLOUT, or nothing at all): queued requests whose send      *)
+(* timeout has elapsed fail with it -- they must not wait for as long as the socket stays unwritable (repair of finding F-C13-5)              *)
+ExpireQueued(S) ==
+    LET late(r) == S.st[r] = "queued" /\ (SndTo = 0 \/ clock - addT[r] > SndTo)
+        keep == SelectSeq(S.sendq, LAMBDA r : ~late(r))
+    IN [SetErr(S, {S.sendq[i] : i \in {j \in DOMAIN S.sendq : late(S.sendq[j])}}, <<"sndto", 0>>) EXCEPT !.sendq = keep]
+
 (* net_tcp_async.c:286-374 -- read everything the server wrote; a peer close / reset ends the connection *)
 GoodFor(S, m) == {r \in Reqs : S.st[r] = "sent" /\ m.k = "resp" /\ m.id = id[r] /\ m.status = 0}
 EarlyFor(S, m) == {r \in Reqs : S.st[r] = "queued" /\ m.k = "resp" /\ m.id = id[r] /\ m.status = 0}
@@ -109,20 +116,30 @@ Input(S) ==
                          !.early = [r \in Reqs |-> @[r] \/ \E i \in DOMAIN S.wire : r \in EarlyFor(S, S.wire[i])]]
     IN IF S.peer # "open" THEN [s |-> CloseSock(got), closed |-> TRUE]
        ELSE [s |-> Output(got), closed |-> FALSE]
+(* the same when the socket is readable but not writable *)
+InputNoOut(S) ==
+    LET got == [S EXCEPT !.respq = @ \o S.wire, !.wire = <<>>,
+                         !.arrived = [r \in Reqs |-> @[r] \/ \E i \in DOMAIN S.wire : r \in GoodFor(S, S.wire[i])],
+                         !.early = [r \in Reqs |-> @[r] \/ \E i \in DOMAIN S.wire : r \in EarlyFor(S, S.wire[i])]]
+    IN IF S.peer # "open" THEN [s |-> CloseSock(got), closed |-> TRUE]
+       ELSE [s |-> ExpireQueued(got), closed |-> FALSE]
 
 (* net_tcp_async.c:218-283 -- connection management *)
 Dispatch(S) ==
     IF S.conn = "none" /\ S.sendq = <<>> THEN [s |-> S, closed |-> FALSE]
     ELSE IF S.conn = "none" /\ openm = "fail" THEN [s |-> CloseSock(ClearQ(S, <<"neterr", 0>>)), closed |-> FALSE]
-    ELSE LET S1 == IF S.conn = "none" THEN [S EXCEPT !.conn = "connecting", !.connT = clock] ELSE S IN
-         CASE pollm = "notready" ->
-                IF S1.conn # "ready" /\ (ConTo = 0 \/ clock - S1.connT > ConTo)
-                  THEN [s |-> ClearQ(CloseSock(S1), <<"conto", 0>>), closed |-> FALSE]
-                  ELSE [s |-> S1, closed |-> FALSE]
+    ELSE LET S1 == IF S.conn = "none" THEN [S EXCEPT !.conn = "connecting", !.connT = clock] ELSE S
+             Quiet == IF S1.conn # "ready" /\ (ConTo = 0 \/ clock - S1.connT > ConTo)           \* poll() reports nothing
+                        THEN [s |-> ClearQ(CloseSock(S1), <<"conto", 0>>), closed |-> FALSE]
+                        ELSE [s |-> IF S1.conn = "ready" THEN ExpireQueued(S1) ELSE S1, closed |-> FALSE]
+         IN
+         CASE pollm = "notready" -> Quiet
+           \* noout: the socket is never writable; it is readable when there is something to read (data, close, reset)
+           [] pollm = "noout" -> IF S1.wire = <<>> /\ S1.peer = "open" THEN Quiet ELSE InputNoOut([S1 EXCEPT !.conn = "ready"])
            [] pollm = "err" -> [s |-> CloseSock(S1), closed |-> TRUE]
            [] pollm = "hup" ->
                 IF S1.conn # "ready" THEN [s |-> CloseSock(ClearQ(S1, <<"neterr", 0>>)), closed |-> TRUE]
-                                     ELSE [s |-> S1, closed |-> FALSE]
+                                     ELSE [s |-> ExpireQueued(S1), closed |-> FALSE]      \* established, neither readable nor writable
            [] OTHER -> Input([S1 EXCEPT !.conn = "ready"])
 
 (* net_http_curl_async.c:317-530 -- the HTTP transport: every queued request becomes an exchange of its own (same round limit, state check and *)
